@@ -255,6 +255,10 @@ def run(ctx):
     broken = ctx.translate()
     res = ctx.coq_props()
     proof_ok = res['ok'] and not broken
+    if proof_ok and not quick:
+        if not ctx.coqchk():
+            ctx.violation("coqchk rejects the compiled C17 development or reports an unexpected axiom",
+                          dict(coqchk=ctx.cov.get('coqchk')), found_input=False)
 
     binp, blog = ctx.harness('release')
     if binp is None:
